@@ -43,7 +43,7 @@ prop("C14", True, "E4 staking",
      STK_NOTE, "DESIGN.md section 5 C14")
 prop("C15", True, "E4 staking",
      "runtime monitor: exact-rational accrual bounds per delegation period, before/after observation around every withdrawal, split-time twin instance compared step by step",
-     "Held on every history observed: for every delegation period withdrawn + pending stays within [X_lo - (withdrawals+1), X_hi] (exact rationals, eps 1e-9); a successful withdrawal pays exactly the pending amount shown before to the current withdraw address, resets pending, mints nothing else and leaves all other delegators' pending rewards unchanged; the pending query equals the floor of credited + uncredited reward in the raw state; a twin instance that splits every time advance into 1-5 block updates agrees on delegations, exact pending values (1e-9) and balances.",
+     "Held on every history observed: for every delegation period withdrawn + pending stays within [X_lo - (withdrawals+1), X_hi] (exact rationals, eps 1e-9); a successful withdrawal pays exactly the pending amount shown before to the current withdraw address, resets pending, mints nothing else and leaves all other delegators' pending rewards unchanged; the pending query equals the floor of credited + uncredited reward in the raw state; a twin instance that splits every time advance into 1-5 block updates (whole-second and sub-second) and has an unrelated delegator force reward updates at every piece boundary agrees on delegations, exact pending values (1e-9) and balances.",
      STK_NOTE, "DESIGN.md section 5 C15")
 prop("C16", True, "E4 staking",
      "runtime monitor: two-sided scaling interval per delegation and per pending unbonding around every slash; unchanged-elsewhere observation; later payouts against per-entry iterated floor",
@@ -53,7 +53,7 @@ prop("C16", True, "E4 staking",
 CHAIN_NOTE = "Trusted: the ~600-line reference model written from the property statements (wasmd rules), the scripted contracts and their out-of-band trace, cosmwasm_std MockApi / instantiate2_address as address codec, serde_json decoding of raw state. Trees of depth <= 5 / <= 24 nodes, non-empty storage values, error texts never compared; staking/ibc/gov/stargate messages are outside this model (C14-C17)."
 prop("C01", True, "E1 chain",
      "runtime monitor: byte comparison of the complete raw storage after every failed call (model-free) + reference-model final state and responses; failure sweep over every node of every generated tree",
-     "Held on every transaction observed: for execute, execute_multi, sudo, wasm_sudo, bank mint and the Executor helpers, over generated histories and message trees with a failure injected at every node of every tree: Err => raw storage byte-identical to before; Ok => responses and decoded final state (bank, registry, every contract's storage) equal the model; execute_multi returns one response per message in order, each seeing its predecessors' effects.",
+     "Held on every transaction observed: for execute, execute_multi, sudo, wasm_sudo, bank mint and the Executor helpers, over generated histories and message trees with a failure injected at every node of every tree: Err => raw storage byte-identical to before; Ok => responses and decoded final state (bank, registry, every contract's storage) equal the model; execute_multi returns one response per message in order, each seeing its predecessors' effects; trees containing staking / distribution / gov / ibc messages are judged model-free (byte-identical storage after Err, no panic, execute_multi equal to the same messages executed one by one on a twin instance).",
      CHAIN_NOTE, "DESIGN.md section 5 C01")
 prop("C02", True, "E1 chain",
      "runtime monitor: reference model with snapshot/restore at the sub-message boundary; mid-transaction probes and own-storage dumps recorded out of band by reply handlers and later siblings",
@@ -97,7 +97,7 @@ prop("C17", True, "E5 routing",
      "Trusted: the recording modules and scripted contracts. QueryRequest::Distribution and SudoMsg::Custom are not exercised (no module accepts them).", "DESIGN.md section 5 C17")
 prop("C19", True, "E7 determinism",
      "runtime monitor: transcript equality across twin / interleaved / separate-process executions, and under Miri with isolation as clock-entropy-environment monitor (thorough)",
-     "Held on every history observed: full transcripts (responses, Ok/Err, ids, addresses, checksums, query answers, contract observations, final raw storage) are identical between a solo run, a twin instance, two instances interleaved operation by operation with a third doing unrelated work, three separate processes started >= 1 s apart, and (thorough) Miri runs with isolation under different seeds.",
+     "Held on every history observed: full transcripts (responses, Ok/Err, ids, addresses, checksums, query answers, contract observations, final raw storage) are identical between a solo run, a twin instance, two instances interleaved operation by operation with a third doing unrelated work, a replay on a fresh thread after a differently configured instance was used, three separate processes started >= 1 s apart (one using a differently configured instance first), and (thorough) Miri runs with isolation under different seeds.",
      "Trusted: sha2 for digests. Error texts are excluded from transcripts. Miri histories are short.", "DESIGN.md section 5 C19")
 prop("C20", True, "E8 builder",
      "runtime monitor: direct probe of tagged components over compile-time generated builder permutations; exhaustive ordered with_* chains of ContractWrapper",
